@@ -85,6 +85,9 @@ def run(seed=0):
                  lambda: None if n < 2 else np.c_[a, b] @ np.array([[0.5, -1.0], [2.0, 0.25]])),
                 ("quantile-axis0", lambda: None if n < 2 else NPX.quantile(_c(np.c_[a, b]), q, axis=0),
                  lambda: None if n < 2 else np.quantile(np.c_[a, b], q, axis=0)),
+                ("searchsorted", lambda: NPX.searchsorted(NPX.sort(_c(a)), sym.lift(1.0)), lambda: np.searchsorted(np.sort(a), 1.0)),
+                ("searchsorted-right", lambda: NPX.searchsorted(NPX.sort(_c(a)), sym.lift(float(a[0])), side="right"),
+                 lambda: np.searchsorted(np.sort(a), float(a[0]), side="right")),
                 ("clip", lambda: NPX.clip(_c(a), 0.0, 1.0), lambda: np.clip(a, 0.0, 1.0)),
                 ("le-and", lambda: (_c(a) <= 2.0) & (_c(b) > 0.5), lambda: (a <= 2.0) & (b > 0.5)),
                 ("linalg.norm", lambda: None if n < 2 else NPX.linalg.norm(_c(np.abs(a) + 1)) ** 2,
